@@ -26,7 +26,7 @@ DEST_DOCUMENTED = ("NoRemoteEntityCfgFound", "InvalidPduDirection", "InvalidDest
 class DstScenario:
     def __init__(self, ctx, w, *, mode, cktype=ChecksumType.CRC_32, closure=False, ids=None,
                  S=None, seg=None, crc=False, dst_name="/dst/file.bin", src_name="/src/file.bin",
-                 rig_kwargs=None, rig=None, vp=""):
+                 rig_kwargs=None, rig=None, vp="", large=False):
         self.ctx, self.w = ctx, w
         self.ids = ids or Ids(2, 2)
         self.mode, self.cktype, self.closure, self.crc = mode, cktype, closure, crc
@@ -37,7 +37,7 @@ class DstScenario:
         self.dst_name, self.src_name = dst_name, src_name
         self.rig = rig or DestRig(w, self.ids, mode=mode, closure=closure, cktype=cktype,
                                   **(rig_kwargs or {}))
-        self.conf = rigs.pdu_conf(self.ids, mode, crc=crc)
+        self.conf = rigs.pdu_conf(self.ids, mode, crc=crc, large=large)
         self.tid = TransactionId(self.ids.src, self.ids.seq)
         self.n = 0
         self.events = []
